@@ -94,6 +94,10 @@ def run(tier, seed):
         jobs.append(("deadclose%d" % i, "crash", ["--seed", str(rng.randrange(1 << 30)), "--steps", "25", "--cpus", str([2, 4, 2][i % 3]), "--blocks", "44",
                                                   "--keys", "4", "--maximages", "0", "--end", "drop", "--forcesync", "1", "--faultat", str([0, 30, 12][i % 3]),
                                                   "--faultmode", "3", "--noheal", "1", "--ttl", "1"]))
+    for i in range(2 if tier == "quick" else 6):   # data area unwritable at the kernel level (EFBIG): error completions on the io_uring path
+        jobs.append(("unwritable%d" % i, "conc", ["--mode", "storm", "--seed", str(rng.randrange(1 << 30)), "--rounds", "12",
+                                                   "--flushers", str([2, 1][i % 2]), "--fails", "0", "--fsize", "1", "--cache", "0",
+                                                   "--cpus", str([4, 2][i % 2])]))
     for i in range(2 if tier == "quick" else 8):   # many concurrent flush() callers over 8 and 4 workers, healthy device
         jobs.append(("crowd%d" % i, "conc", ["--mode", "storm", "--seed", str(rng.randrange(1 << 30)), "--rounds", "80",
                                               "--flushers", str([12, 16][i % 2]), "--fails", "0", "--cache", "0",
